@@ -25,6 +25,22 @@ FromNat(k, n) == [i \in 1..n |-> IF i = 1 THEN k % 256 ELSE IF i = 2 THEN (k \di
                                  ELSE IF i = 3 THEN (k \div 65536) % 256 ELSE 0]
 AddNat(a, k) == Add(a, FromNat(k, Len(a)))
 
+\* integers |x| < 2^31 as n-byte two's complement words
+FromNat31(k, n) == [i \in 1..n |-> IF i = 1 THEN k % 256 ELSE IF i = 2 THEN (k \div 256) % 256
+                                   ELSE IF i = 3 THEN (k \div 65536) % 256
+                                   ELSE IF i = 4 THEN (k \div 16777216) % 256 ELSE 0]
+FromInt(x, n) == IF x >= 0 THEN FromNat31(x, n) ELSE Neg(FromNat31(-x, n))
+AddInt(a, x) == Add(a, FromInt(x, Len(a)))
+
+Double(w) == Add(w, w)
+\* w * 4096 modulo 2^(8*Len(w)): one byte shift, then four doublings
+ShiftBytes(w, k) == [i \in 1..Len(w) |-> IF i <= k THEN 0 ELSE w[i - k]]
+Times4096(w) == Double(Double(Double(Double(ShiftBytes(w, 1)))))
+\* clear the low 12 bits
+PageAlign(w) == [i \in 1..Len(w) |-> IF i = 1 THEN 0 ELSE IF i = 2 THEN (w[2] \div 16) * 16 ELSE w[i]]
+\* clear the low k bits, k <= 8
+AlignLow(w, k) == [i \in 1..Len(w) |-> IF i = 1 THEN (w[1] \div (2 ^ k)) * (2 ^ k) ELSE w[i]]
+
 \* sign-extend an m-byte word to n bytes
 SignExt(w, n) == [i \in 1..n |-> IF i <= Len(w) THEN w[i] ELSE IF w[Len(w)] >= 128 THEN 255 ELSE 0]
 ZeroExt(w, n) == [i \in 1..n |-> IF i <= Len(w) THEN w[i] ELSE 0]
